@@ -79,6 +79,11 @@ func buildCtxFacts(w *World) (*ctxFacts, error) {
 					if callee := x.Call.StaticCallee(); callee != nil && strings.HasPrefix(callee.String(), "maps.Clone") {
 						cloneCalls++
 					}
+					// a table of the context handed to a helper (function or instance of a generic one)
+					// that stores into it or looks a name up in it
+					u, l := cf.tableHelperUse(x)
+					updates = updates || u
+					lookup = lookup || l
 				}
 			}
 		}
@@ -205,6 +210,69 @@ func buildCtxFacts(w *World) (*ctxFacts, error) {
 }
 
 func (cf *ctxFacts) isCtx(t types.Type) bool { return types.Identical(t, cf.ctxType) }
+
+// ctxTableBase: v is a map kept in a field of a context value; the context value (or the address of its cell).
+func (cf *ctxFacts) ctxTableBase(v ssa.Value) ssa.Value {
+	if _, isMap := v.Type().Underlying().(*types.Map); !isMap {
+		return nil
+	}
+	switch x := v.(type) {
+	case *ssa.ChangeType:
+		return cf.ctxTableBase(x.X)
+	case *ssa.Field:
+		if cf.isCtx(x.X.Type()) {
+			return x.X
+		}
+	case *ssa.UnOp:
+		if fa, ok := x.X.(*ssa.FieldAddr); ok {
+			if pt, ok := fa.X.Type().Underlying().(*types.Pointer); ok && cf.isCtx(pt.Elem()) {
+				return fa.X
+			}
+		}
+	}
+	return nil
+}
+
+// tableHelperUse: the call hands a table of a context to a function of the parser that is not a
+// method of the context; what that function does with the parameter (store / look-up with ok).
+func (cf *ctxFacts) tableHelperUse(c *ssa.Call) (updates, lookup bool) {
+	callee := c.Call.StaticCallee()
+	if callee == nil || callee.Blocks == nil || c.Call.IsInvoke() {
+		return
+	}
+	if callee.Pkg == nil && callee.Origin() != nil {
+		if callee.Origin().Pkg == nil || callee.Origin().Pkg.Pkg != cf.ctxType.Obj().Pkg() {
+			return
+		}
+	} else if callee.Pkg == nil || callee.Pkg.Pkg != cf.ctxType.Obj().Pkg() {
+		return
+	}
+	if recv := callee.Signature.Recv(); recv != nil && types.Identical(recv.Type(), cf.ctxType) {
+		return
+	}
+	for i, a := range c.Call.Args {
+		if cf.ctxTableBase(a) == nil || i >= len(callee.Params) {
+			continue
+		}
+		p := callee.Params[i]
+		if p.Referrers() == nil {
+			continue
+		}
+		for _, r := range *p.Referrers() {
+			switch y := r.(type) {
+			case *ssa.MapUpdate:
+				if y.Map == ssa.Value(p) {
+					updates = true
+				}
+			case *ssa.Lookup:
+				if y.X == ssa.Value(p) && y.CommaOk {
+					lookup = true
+				}
+			}
+		}
+	}
+	return
+}
 
 // ctxOrigin: where a context value comes from: "param", "clone", "fresh", "other".
 func (cf *ctxFacts) ctxOrigin(v ssa.Value, seen map[ssa.Value]bool) map[string]bool {
@@ -358,6 +426,13 @@ func (cf *ctxFacts) mutations(fn *ssa.Function) []ctxMutation {
 				callee := x.Call.StaticCallee()
 				if callee != nil && cf.mutators[callee] && len(x.Call.Args) > 0 {
 					out = append(out, ctxMutation{x, x.Call.Args[0], callee.Name()})
+				}
+				if u, _ := cf.tableHelperUse(x); u {
+					for _, a := range x.Call.Args {
+						if base := cf.ctxTableBase(a); base != nil {
+							out = append(out, ctxMutation{x, base, callee.Name()})
+						}
+					}
 				}
 				if callee != nil && (strings.HasPrefix(callee.String(), "maps.DeleteFunc") || strings.HasPrefix(callee.String(), "maps.Copy") || strings.HasPrefix(callee.String(), "maps.Insert")) && len(x.Call.Args) > 0 {
 					if base := fieldBase(x.Call.Args[0]); base != nil {
@@ -1463,9 +1538,34 @@ func c07Public(w *World, cf *ctxFacts, r *Result, rule string) {
 			continue
 		}
 		for _, m := range cf.mutations(fn) {
+			var mu ssa.Instruction
 			mu, ok := m.ins.(*ssa.MapUpdate)
 			if !ok {
-				continue
+				// a helper that is handed the table and stores into it: the store is judged where it is made
+				// (once per helper: the same instruction is met for every table it is handed)
+				hc, isCall := m.ins.(*ssa.Call)
+				if !isCall {
+					continue
+				}
+				if u, _ := cf.tableHelperUse(hc); !u {
+					continue
+				}
+				h := hc.Call.StaticCallee()
+				var inner []ssa.Instruction
+				for i, a := range hc.Call.Args {
+					if cf.ctxTableBase(a) == nil || i >= len(h.Params) || h.Params[i].Referrers() == nil {
+						continue
+					}
+					for _, rr := range *h.Params[i].Referrers() {
+						if y, ok := rr.(*ssa.MapUpdate); ok && y.Map == ssa.Value(h.Params[i]) {
+							inner = append(inner, y)
+						}
+					}
+				}
+				if len(inner) != 1 {
+					continue
+				}
+				mu = inner[0]
 			}
 			// direct store of an imported definition into the context maps
 			n++
@@ -2948,6 +3048,10 @@ func IdentRule(w *World, r *Result, rule string) {
 							}
 						}
 					}
+					// an attempt made by a helper that is handed the table
+					if _, l := cf.tableHelperUse(x); l {
+						attempts++
+					}
 					// the key builder is called with a scope flag that can be true although the use
 					// site's flag is not (the flag is taken from a list of attempts that holds true)
 					if callee := x.Call.StaticCallee(); callee != nil && callee != fn && w.IsProduct(pkgOf(callee)) {
@@ -4084,6 +4188,52 @@ func c09Keys(w *World, cf *ctxFacts, r *Result, rule string) {
 				case *ssa.Lookup:
 					if f, ok := fieldOf(x.X); ok {
 						lookups[f] = append(lookups[f], access{fn, x, x.Index})
+					}
+				}
+			}
+		}
+	}
+	// accesses made by a helper (a function or an instance of a generic one) that is handed the table
+	type helperAccess struct {
+		f   int
+		ins ssa.Instruction
+	}
+	seenHelper := map[helperAccess]bool{}
+	for _, fn := range w.Funcs("parser") {
+		for _, b := range fn.Blocks {
+			for _, ins := range b.Instrs {
+				c, ok := ins.(*ssa.Call)
+				if !ok {
+					continue
+				}
+				if u, l := cf.tableHelperUse(c); !u && !l {
+					continue
+				}
+				h := c.Call.StaticCallee()
+				for i, a := range c.Call.Args {
+					if ct, ok := a.(*ssa.ChangeType); ok {
+						a = ct.X
+					}
+					f, ok := fieldOf(a)
+					if !ok || i >= len(h.Params) || h.Params[i].Referrers() == nil {
+						continue
+					}
+					for _, rr := range *h.Params[i].Referrers() {
+						if seenHelper[helperAccess{f, rr}] {
+							continue
+						}
+						switch y := rr.(type) {
+						case *ssa.MapUpdate:
+							if y.Map == ssa.Value(h.Params[i]) {
+								seenHelper[helperAccess{f, rr}] = true
+								stores[f] = append(stores[f], access{h, y, y.Key})
+							}
+						case *ssa.Lookup:
+							if y.X == ssa.Value(h.Params[i]) {
+								seenHelper[helperAccess{f, rr}] = true
+								lookups[f] = append(lookups[f], access{h, y, y.Index})
+							}
+						}
 					}
 				}
 			}
